@@ -47,23 +47,33 @@ from .values import BAObj, DObj, HObj, Obj, OpaqueStr, Ref, Sym
 # ---------------------------------------------------------------------------
 _IntS = z3.IntSort()
 _D = z3.Datatype('Dyn')
+_D.declare('absent')  # marks a missing key inside a dict; never a value
 _D.declare('none')
 _D.declare('b', ('bv', z3.BoolSort()))
 _D.declare('i', ('iv', _IntS))
 _D.declare('s', ('sv', _IntS))
 _D.declare('y', ('yv', z3.SeqSort(_IntS)))
-_D.declare('d', ('dom', z3.ArraySort(_IntS, z3.BoolSort())), ('val', z3.ArraySort(_IntS, z3.DatatypeSort('Dyn'))), ('size', _IntS))
+_D.declare('d', ('items', z3.ArraySort(_IntS, z3.DatatypeSort('Dyn'))))  # key identity -> value | absent
 Dyn = _D.create()
+ItemsS = z3.ArraySort(_IntS, Dyn)
 
-EMPTY_DOM = z3.K(_IntS, z3.BoolVal(False))
-EMPTY_VAL = z3.K(_IntS, Dyn.none)
-EMPTY = Dyn.d(EMPTY_DOM, EMPTY_VAL, z3.IntVal(0))
+EMPTY_ITEMS = z3.K(_IntS, Dyn.absent)
+EMPTY = Dyn.d(EMPTY_ITEMS)
+CARD = z3.Function('dict_len', ItemsS, _IntS)  # number of keys (facts are added where a length is observed / changed)
+
+
+def cell(t, k):
+    return z3.Select(Dyn.items(t), k)
+
+
+def has(t, k):
+    return z3.Not(Dyn.is_absent(z3.Select(Dyn.items(t), k)))
 
 HEX = z3.Function('str_hex', z3.SeqSort(_IntS), _IntS)  # bytes -> str id
 UNHEX = z3.Function('str_unhex', _IntS, z3.SeqSort(_IntS))  # str id -> bytes
 ISHEX = z3.Function('str_ishex', _IntS, z3.BoolSort())
 CONCAT = z3.Function('str_concat', _IntS, _IntS, _IntS)
-SOLE = z3.Function('dict_sole_key', z3.ArraySort(_IntS, z3.BoolSort()), _IntS)  # the key of a one-entry dict
+SOLE = z3.Function('dict_sole_key', z3.ArraySort(_IntS, z3.DatatypeSort('Dyn')), _IntS)  # the key of a one-entry dict
 
 
 def str_id(s):
@@ -170,7 +180,7 @@ def jterm(ex, ref):
         return ho.term
     t = ex.obj(Ref(ho.root, ref.old)).term
     for k in ho.path:
-        t = z3.Select(Dyn.val(t), k)
+        t = cell(t, k)
     return z3.simplify(t)
 
 
@@ -178,7 +188,7 @@ def _rebuild(t, path, new):
     if not path:
         return new
     k = path[0]
-    return Dyn.d(Dyn.dom(t), z3.Store(Dyn.val(t), k, _rebuild(z3.Select(Dyn.val(t), k), path[1:], new)), Dyn.size(t))
+    return Dyn.d(z3.Store(Dyn.items(t), k, _rebuild(cell(t, k), path[1:], new)))
 
 
 def jwrite(ex, ref, new):
@@ -293,31 +303,34 @@ def key_id(ex, k):
 
 
 def d_put(d, k, v):
-    return Dyn.d(z3.Store(Dyn.dom(d), k, z3.BoolVal(True)), z3.Store(Dyn.val(d), k, v), Dyn.size(d) + z3.If(z3.Select(Dyn.dom(d), k), 0, 1))
+    return Dyn.d(z3.Store(Dyn.items(d), k, v))
 
 
 def d_drop(d, k):
-    return Dyn.d(z3.Store(Dyn.dom(d), k, z3.BoolVal(False)), z3.Store(Dyn.val(d), k, Dyn.none), Dyn.size(d) - z3.If(z3.Select(Dyn.dom(d), k), 1, 0))
+    return Dyn.d(z3.Store(Dyn.items(d), k, Dyn.absent))
 
 
-_OR = z3.Or(z3.Bool('p'), z3.Bool('q')).decl()
+def card_step(ex, old, new, k):
+    """len after d[k] = v / del d[k]: a valid fact about finite dicts (added so that a later len() knows it)"""
+    if ex.quant:
+        return
+    a0, a1 = Dyn.items(old), Dyn.items(new)
+    was, now = z3.Not(Dyn.is_absent(z3.Select(a0, k))), z3.Not(Dyn.is_absent(z3.Select(a1, k)))
+    ex.add_def(CARD(a1) == CARD(a0) + z3.If(now, 1, 0) - z3.If(was, 1, 0))
+
+
 _ITE = z3.If(z3.Bool('p'), Dyn.none, Dyn.none).decl()
+_IS_ABSENT = Dyn.is_absent(Dyn.none).decl()
 
 
 def d_merge(ex, c, s):
-    """dict c updated with dict s (s wins); exact for the domain and the values, the size is characterised by bounds"""
+    """dict c updated with dict s (s wins): pointwise combinators of z3's array theory"""
     c, s = z3.simplify(c), z3.simplify(s)
     if c.eq(EMPTY):
         return s
     if s.eq(EMPTY):
         return c
-    # pointwise combinators of z3's array theory (decidable, unlike lambdas)
-    dom = z3.Map(_OR, Dyn.dom(c), Dyn.dom(s))
-    val = z3.Map(_ITE, Dyn.dom(s), Dyn.val(s), Dyn.val(c))
-    n = z3.Int(ex.fresh_name('msize'))
-    sc, ss = Dyn.size(c), Dyn.size(s)
-    ex.add_def(z3.And(n >= sc, n >= ss, n <= sc + ss, z3.Implies(sc == 0, n == ss), z3.Implies(ss == 0, n == sc)))
-    return Dyn.d(dom, val, n)
+    return Dyn.d(z3.Map(_ITE, z3.Map(_IS_ABSENT, Dyn.items(s)), Dyn.items(c), Dyn.items(s)))
 
 
 def to_dyn(ex, v):
@@ -451,15 +464,15 @@ def need_dict(ex, v, exc=TypeError, what='not a dict'):
 
 
 def size_facts(ex, t):
-    """valid facts about the size of a (finite) dict, added where a length is observed"""
+    """valid facts about the number of keys of a (finite) dict, added where a length is observed"""
     if ex.quant:
         return
-    sz, dom = Dyn.size(t), Dyn.dom(t)
-    ex.add_def(sz >= 0)
-    ex.add_def((sz == 0) == (dom == EMPTY_DOM))
-    k = SOLE(dom)
-    ex.add_def(z3.Implies(sz == 1, dom == z3.Store(EMPTY_DOM, k, z3.BoolVal(True))))
-    ex.add_def(z3.Implies(z3.And(sz >= 0, z3.Select(dom, k), dom == z3.Store(EMPTY_DOM, k, z3.BoolVal(True))), sz == 1))
+    a = Dyn.items(t)
+    n, k = CARD(a), SOLE(a)
+    one = z3.And(z3.Not(Dyn.is_absent(z3.Select(a, k))), a == z3.Store(EMPTY_ITEMS, k, z3.Select(a, k)))
+    ex.add_def(n >= 0)
+    ex.add_def((n == 0) == (a == EMPTY_ITEMS))
+    ex.add_def((n == 1) == one)
 
 
 def load_value(ex, t, holder=None, key=None):
@@ -500,7 +513,7 @@ def j_contains(ex, recv, k):
                     ex.raise_(TypeError, 'argument is not iterable')
                 raise Unsupported('substring test on a string identity')
     t = _recv_term(ex, recv)
-    r = z3.Select(Dyn.dom(t), key_id(ex, k))
+    r = has(t, key_id(ex, k))
     if ex.spec_mode and is_dyn(recv):
         r = z3.And(Dyn.is_d(t), r)
     return mk_bool(r)
@@ -512,9 +525,9 @@ def j_getitem(ex, recv, k):
     t = _recv_term(ex, recv)
     kid = key_id(ex, k)
     if not ex.spec_mode:
-        if not ex.branch(mk_bool(z3.Select(Dyn.dom(t), kid))):
+        if not ex.branch(mk_bool(has(t, kid))):
             ex.raise_(KeyError, k)
-    return load_value(ex, z3.Select(Dyn.val(t), kid), recv if isinstance(recv, Ref) else None, kid)
+    return load_value(ex, cell(t, kid), recv if isinstance(recv, Ref) else None, kid)
 
 
 def j_get(ex, recv, k, default=None):
@@ -522,22 +535,22 @@ def j_get(ex, recv, k, default=None):
         need_dict(ex, recv, AttributeError, 'get')
     t = _recv_term(ex, recv)
     kid = key_id(ex, k)
-    has = z3.Select(Dyn.dom(t), kid)
+    present = has(t, kid)
     if ex.spec_mode and is_dyn(recv):
-        has = z3.And(Dyn.is_d(t), has)
-    has_s = z3.simplify(has)
+        present = z3.And(Dyn.is_d(t), present)
+    has_s = z3.simplify(present)
     if isinstance(recv, Ref) and not ex.spec_mode:
         # mutable receiver: a dict value must come back as a view, so presence is decided
-        if ex.branch(mk_bool(has)):
-            return load_value(ex, z3.Select(Dyn.val(t), kid), recv, kid)
+        if ex.branch(mk_bool(present)):
+            return load_value(ex, cell(t, kid), recv, kid)
         return default
     if z3.is_true(has_s):
-        return load_value(ex, z3.Select(Dyn.val(t), kid), recv if isinstance(recv, Ref) else None, kid)
+        return load_value(ex, cell(t, kid), recv if isinstance(recv, Ref) else None, kid)
     if z3.is_false(has_s):
         return default
     if not dynable(ex, default):
         raise Unsupported('dict.get default without a dynamic-value form')
-    return load_value(ex, z3.If(has, z3.Select(Dyn.val(t), kid), to_dyn(ex, default)))
+    return load_value(ex, z3.If(present, cell(t, kid), to_dyn(ex, default)))
 
 
 def j_len(ex, recv):
@@ -547,7 +560,7 @@ def j_len(ex, recv):
             return ex.length(v)
     t = _recv_term(ex, recv)
     size_facts(ex, t)
-    return mk_int(Dyn.size(t))
+    return mk_int(CARD(Dyn.items(t)))
 
 
 def j_setitem(ex, ref, k, v):
@@ -555,7 +568,9 @@ def j_setitem(ex, ref, k, v):
     detach_below(ex, ref, kid)
     cur = jterm(ex, ref)
     vt = to_dyn(ex, v)
-    jwrite(ex, ref, d_put(cur, kid, vt))
+    new = d_put(cur, kid, vt)
+    card_step(ex, cur, new, kid)
+    jwrite(ex, ref, new)
     if isinstance(v, Ref) and isinstance(ex.obj(v), (DObj, JObj, JView)):
         root, path = _loc(ex, ref)
         redirect(ex, v, root, tuple(path) + (kid,))
@@ -565,10 +580,12 @@ def j_delitem(ex, ref, k):
     kid = key_id(ex, k)
     cur = jterm(ex, ref)
     if not ex.spec_mode:
-        if not ex.branch(mk_bool(z3.Select(Dyn.dom(cur), kid))):
+        if not ex.branch(mk_bool(has(cur, kid))):
             ex.raise_(KeyError, k)
     detach_below(ex, ref, kid)
-    jwrite(ex, ref, d_drop(cur, kid))
+    new = d_drop(cur, kid)
+    card_step(ex, cur, new, kid)
+    jwrite(ex, ref, new)
 
 
 def dobj_to_jobj(ex, ref):
@@ -608,8 +625,8 @@ def j_method(ex, recv, name, args, kwargs):
     if name == 'setdefault':
         kid = key_id(ex, args[0])
         cur = jterm(ex, recv)
-        if ex.branch(mk_bool(z3.Select(Dyn.dom(cur), kid))):
-            return load_value(ex, z3.Select(Dyn.val(cur), kid), recv, kid)
+        if ex.branch(mk_bool(has(cur, kid))):
+            return load_value(ex, cell(cur, kid), recv, kid)
         dflt = args[1] if len(args) > 1 else None
         j_setitem(ex, recv, args[0], dflt)
         return dflt
@@ -620,10 +637,12 @@ def j_method(ex, recv, name, args, kwargs):
     if name == 'pop':
         kid = key_id(ex, args[0])
         cur = jterm(ex, recv)
-        if ex.branch(mk_bool(z3.Select(Dyn.dom(cur), kid))):
-            v = load_value(ex, z3.Select(Dyn.val(cur), kid), recv, kid)
+        if ex.branch(mk_bool(has(cur, kid))):
+            v = load_value(ex, cell(cur, kid), recv, kid)
             detach_below(ex, recv, kid)
-            jwrite(ex, recv, d_drop(jterm(ex, recv), kid))
+            new = d_drop(cur, kid)
+            card_step(ex, cur, new, kid)
+            jwrite(ex, recv, new)
             return v
         if len(args) > 1:
             return args[1]
@@ -892,20 +911,21 @@ def m_next(ex, it, *default):
             raise Unsupported('second element of the iteration over a dict of symbolic size')
         t = _recv_term(ex, it.recv)
         size_facts(ex, t)
-        if not ex.branch(mk_bool(Dyn.size(t) > 0)):
+        n = CARD(Dyn.items(t))
+        if not ex.branch(mk_bool(n > 0)):
             if default:
                 return default[0]
             ex.raise_(StopIteration)
         it.taken = 1
-        if ex.proves(Dyn.size(t) == 1):
-            k = SOLE(Dyn.dom(t))
+        if ex.proves(n == 1):
+            k = SOLE(Dyn.items(t))
         else:
             k = z3.Int(ex.fresh_name('firstkey'))
-            ex.add_def(z3.Select(Dyn.dom(t), k))
+            ex.add_def(has(t, k))
         key = mk_str(k)
         if it.what == 'keys':
             return key
-        v = load_value(ex, z3.Select(Dyn.val(t), k), it.recv if isinstance(it.recv, Ref) else None, k)
+        v = load_value(ex, cell(t, k), it.recv if isinstance(it.recv, Ref) else None, k)
         return v if it.what == 'values' else (key, v)
     return _orig_m_next(ex, it, *default)
 
@@ -942,7 +962,7 @@ def dyn_truth_term(t):
     return z3.If(
         Dyn.is_none(t),
         z3.BoolVal(False),
-        z3.If(Dyn.is_b(t), Dyn.bv(t), z3.If(Dyn.is_i(t), Dyn.iv(t) != 0, z3.If(Dyn.is_s(t), Dyn.sv(t) != str_id(''), z3.If(Dyn.is_y(t), z3.Length(Dyn.yv(t)) > 0, Dyn.size(t) != 0)))),
+        z3.If(Dyn.is_b(t), Dyn.bv(t), z3.If(Dyn.is_i(t), Dyn.iv(t) != 0, z3.If(Dyn.is_s(t), Dyn.sv(t) != str_id(''), z3.If(Dyn.is_y(t), z3.Length(Dyn.yv(t)) > 0, Dyn.items(t) != EMPTY_ITEMS)))),
     )
 
 
@@ -953,8 +973,7 @@ def truth(self, v):
         return mk_bool(dyn_truth_term(v.t))
     if is_jref(self, v):
         t = jterm(self, v)
-        size_facts(self, t)
-        return mk_bool(Dyn.size(t) != 0)
+        return mk_bool(Dyn.items(t) != EMPTY_ITEMS)
     return _orig_truth(self, v)
 
 
@@ -1037,8 +1056,7 @@ def fresh(self, path, t, hint):
         return path.fresh_sym('str', hint)
     if isinstance(t, DynT):
         s = path.fresh_sym('dyn', hint)
-        if t.dict_only:
-            path.add_def(Dyn.is_d(s.t))
+        path.add_def(Dyn.is_d(s.t) if t.dict_only else z3.Not(Dyn.is_absent(s.t)))
         return s
     if isinstance(t, OptDyn):
         s = path.fresh_sym('dyn', hint)
@@ -1092,6 +1110,8 @@ _orig_eval_term = S.eval_term
 
 def _dyn_value(model, t, depth=0):
     r = model.eval(t, model_completion=True)
+    if z3.is_true(model.eval(Dyn.is_absent(t), model_completion=True)):
+        return None
     for c in _CTORS:
         if z3.is_true(model.eval(getattr(Dyn, 'is_' + c)(t), model_completion=True)):
             break
@@ -1102,7 +1122,7 @@ def _dyn_value(model, t, depth=0):
     if c == 'i':
         return _orig_eval_term(model, Dyn.iv(t), 'int')
     if c == 's':
-        return id_str(_orig_eval_term(model, Dyn.sv(t), 'int'))
+        return _str_value(model, _orig_eval_term(model, Dyn.sv(t), 'int'))
     if c == 'y':
         return _orig_eval_term(model, Dyn.yv(t), 'bytes')
     if depth > 6:
@@ -1120,8 +1140,8 @@ def _dyn_value(model, t, depth=0):
     out = {}
     for k in sorted(keys):
         kv = z3.IntVal(k)
-        if z3.is_true(model.eval(z3.Select(Dyn.dom(t), kv), model_completion=True)):
-            out[id_str(k)] = _dyn_value(model, z3.Select(Dyn.val(t), kv), depth + 1)
+        if z3.is_false(model.eval(Dyn.is_absent(cell(t, kv)), model_completion=True)):
+            out[_str_value(model, k)] = _dyn_value(model, cell(t, kv), depth + 1)
         if len(out) >= 12:
             break
     return out
@@ -1138,15 +1158,88 @@ def _collect_ints(t, acc, depth):
             _collect_ints(c, acc, depth + 1)
 
 
+_STR_MEMO = [None, {}, set()]
+
+
+def _str_value(model, n):
+    """python string for the string identity n under the model (injective per model).  An identity the model treats
+    as a hex string becomes hex text of the bytes the model decodes it to (so that bytes.fromhex agrees natively);
+    trailing blanks, which fromhex ignores, keep different identities different."""
+    s = id_str(n)
+    if not s.startswith('~'):
+        return s
+    if _STR_MEMO[0] is not model:
+        _STR_MEMO[0], _STR_MEMO[1], _STR_MEMO[2] = model, {}, set()
+    memo, used = _STR_MEMO[1], _STR_MEMO[2]
+    if n in memo:
+        return memo[n]
+    try:
+        if z3.is_true(model.eval(ISHEX(z3.IntVal(n)), model_completion=True)):
+            s = _orig_eval_term(model, UNHEX(z3.IntVal(n)), 'bytes').hex()
+            while s in used:
+                s += ' '
+    except z3.Z3Exception:
+        pass
+    memo[n] = s
+    used.add(s)
+    return s
+
+
 def eval_term(model, t, kind):
     if kind == 'str':
-        return id_str(_orig_eval_term(model, t, 'int'))
+        return _str_value(model, _orig_eval_term(model, t, 'int'))
     if kind == 'dyn':
         return _dyn_value(model, t)
     return _orig_eval_term(model, t, kind)
 
 
 S.eval_term = eval_term
+
+_orig_small_model = S.small_model
+
+
+def _item_cells(t, acc, seen):
+    """array terms items(X) and the index terms they are read at, in the formula t"""
+    if t.get_id() in seen:
+        return
+    seen.add(t.get_id())
+    if z3.is_quantifier(t):
+        return
+    if z3.is_app(t):
+        if t.decl().kind() == z3.Z3_OP_SELECT and t.arg(0).sort() == ItemsS:
+            a = t.arg(0)
+            if z3.is_app(a) and a.decl().kind() == z3.Z3_OP_DT_ACCESSOR:
+                acc.setdefault(a.get_id(), (a, {}))[1][t.arg(1).get_id()] = t.arg(1)
+        for c in t.children():
+            _item_cells(c, acc, seen)
+
+
+def small_model(ob, s):
+    """prefer a model in which every symbolic dict has no keys besides the ones the formula reads (a finite dict the
+    replay can build exactly); falls back to the solver's model"""
+    m = _orig_small_model(ob, s)
+    try:
+        acc, seen = {}, set()
+        for f in s.assertions():
+            _item_cells(f, acc, seen)
+        if not acc:
+            return m
+        s.push()
+        s.set('timeout', 3000)
+        for a, idx in acc.values():
+            base = EMPTY_ITEMS
+            for k in idx.values():
+                base = z3.Store(base, k, z3.Select(a, k))
+            s.add(a == base)
+        if s.check() == z3.sat:
+            m = s.model()
+        s.pop()
+    except z3.Z3Exception:
+        pass
+    return m
+
+
+S.small_model = small_model
 
 _orig_model_value = S.model_value
 
@@ -1158,12 +1251,40 @@ def model_value(model, v, heap, memo=None):
             return _dyn_value(model, o.term)
         t = heap[o.root].term
         for k in o.path:
-            t = z3.Select(Dyn.val(t), k)
+            t = cell(t, k)
         return _dyn_value(model, t)
     return _orig_model_value(model, v, heap, memo)
 
 
 S.model_value = model_value
+
+
+# -- replay: contract kwarg native_patches=[(module name, attribute)]: module globals that `native_setup` replaces for the
+#    native run (fake `open`, `json`, `os` of the module under test); they are restored after every native run
+from . import replay as R  # noqa: E402
+
+_orig_run_native = R.run_native
+_MISSING = object()
+
+
+def run_native(top, registry, state, extra_check=None):
+    import importlib
+
+    saved = []
+    for modname, attr in (getattr(top, 'extra', None) or {}).get('native_patches', ()):
+        mod = importlib.import_module(modname)
+        saved.append((mod, attr, mod.__dict__.get(attr, _MISSING)))
+    try:
+        return _orig_run_native(top, registry, state, extra_check)
+    finally:
+        for mod, attr, v in saved:
+            if v is _MISSING:
+                mod.__dict__.pop(attr, None)
+            else:
+                setattr(mod, attr, v)
+
+
+R.run_native = run_native
 
 
 # ---------------------------------------------------------------------------
@@ -1306,7 +1427,10 @@ def _dict_term(ex, d):
 
 def q_put(ex, args, kwargs):
     d, k, v = args
-    return mk_dyn(d_put(_dict_term(ex, d), key_id(ex, k), to_dyn(ex, v)))
+    t, kid = _dict_term(ex, d), key_id(ex, k)
+    new = z3.simplify(d_put(t, kid, to_dyn(ex, v)))
+    card_step(ex, t, new, kid)
+    return mk_dyn(new)
 
 
 def q_put_opt(ex, args, kwargs):
@@ -1317,13 +1441,15 @@ def q_put_opt(ex, args, kwargs):
         return mk_dyn(d_put(t, kid, vt))
     if z3.is_false(nn):
         return mk_dyn(t)
-    had = z3.Select(Dyn.dom(t), kid)
-    return mk_dyn(Dyn.d(z3.Store(Dyn.dom(t), kid, z3.Or(had, nn)), z3.Store(Dyn.val(t), kid, z3.If(nn, vt, z3.Select(Dyn.val(t), kid))), Dyn.size(t) + z3.If(z3.And(nn, z3.Not(had)), 1, 0)))
+    return mk_dyn(Dyn.d(z3.Store(Dyn.items(t), kid, z3.If(nn, vt, cell(t, kid)))))
 
 
 def q_drop(ex, args, kwargs):
     d, k = args
-    return mk_dyn(d_drop(_dict_term(ex, d), key_id(ex, k)))
+    t, kid = _dict_term(ex, d), key_id(ex, k)
+    new = z3.simplify(d_drop(t, kid))
+    card_step(ex, t, new, kid)
+    return mk_dyn(new)
 
 
 def q_merged(ex, args, kwargs):
@@ -1349,19 +1475,19 @@ def q_forall_items(ex, args, kwargs):
     ex.quant += 1
     ex.spec_mode += 1
     try:
-        body = ex.truth(ex.call(f, [k, mk_dyn(z3.Select(Dyn.val(t), k.t))], {}))
+        body = ex.truth(ex.call(f, [k, mk_dyn(cell(t, k.t))], {}))
     finally:
         ex.quant -= 1
         ex.spec_mode -= 1
     added = ex.pc[n0:]
     del ex.pc[n0:]
     b = zbool(body) if not isinstance(body, bool) else z3.BoolVal(body)
-    return mk_bool(z3.ForAll([k.t], z3.Implies(z3.And(z3.Select(Dyn.dom(t), k.t), *added), b)))
+    return mk_bool(z3.ForAll([k.t], z3.Implies(z3.And(has(t, k.t), *added), b)))
 
 
 def q_sole_key(ex, args, kwargs):
     (d,) = args
-    return mk_str(SOLE(Dyn.dom(_dict_term(ex, d))))
+    return mk_str(SOLE(Dyn.items(_dict_term(ex, d))))
 
 
 _VALUE_UFS = {}
